@@ -175,7 +175,8 @@ class variable(Proposition):
             if not issubclass(bounds.__class__, (tuple, numpy.ndarray, list)):
                 raise ValueError(f"invalid data type for bounds, got `{bounds.__class__}`")
 
-            self.bounds = Bounds(*bounds)
+            # an array is an accepted spelling of the bounds: keep them as plain numbers, like the other spellings
+            self.bounds = Bounds(*(bounds.tolist() if isinstance(bounds, numpy.ndarray) else bounds))
 
     def __hash__(self):
         return hash(self.id)+hash(self.bounds)
